@@ -2,6 +2,26 @@
 # Generates MANIFEST.json from the table below (kept in one place so it stays valid).
 import json
 checks = {
+ "C01": dict(cat="model_checking",
+   text="Every expression of a bounded space (full operator x operand cell table over 25 operands in 4 observation contexts; all trees of depth <=2 over 7 (thorough 10) atoms, 12 binary + 3 prefix operators and embedded assignments; all unparenthesised 4-operand (thorough 5) chains with every prefix pattern; redundant parentheses; nesting to 64) is run through the real Interpret and through an independent reference evaluator on the rendered text; value, dynamic type, print text, side effects, runtime-error class and position must agree.",
+   note="Trusted: the reference model mc/ref (precedence-climbing parser + tree-walking evaluator over scope maps, written from README/NOTE/property text). Operand values limited to the alphabet. NaN ordering and block-valued operands excluded as unspecified.",
+   tech="bounded-exhaustive program enumeration with a reference-model (differential) oracle; every model trace replayed on the implementation", ref="§4 C01"),
+ "C02": dict(cat="model_checking",
+   text="All statement sequences up to length 6 (thorough 7) over a 21-symbol alphabet of declarations, assignments (also nested in sub-expressions), reads and block open/close with two names and nesting <=3 are executed by the real Interpret and by the reference evaluator; outputs, fields, compile-diagnostic class/position and runtime-error class/position must agree. Rejected prefixes are absorbing and not extended.",
+   note="Trusted: reference model mc/ref. Small-scope: two names, three levels; deeper shadowing only through a scaled family (depth 8).",
+   tech="explicit enumeration of operation (statement) sequences up to a depth against a reference model", ref="§4 C02"),
+ "C03": dict(cat="model_checking",
+   text="All statement sequences up to length 5 (thorough 6) over a 24-symbol alphabet of block definitions (2 types x 4 name forms), closes, field assignments, variables, TYPE/NAME reads and a runtime error, nesting <=3; the []Block returned by the real Interpret (order, type, name, fields with dynamic types, children keys) and the blocks returned alongside a runtime error are compared with the reference evaluator.",
+   note="Trusted: reference model mc/ref. Reading/overwriting a closed child through its key is unspecified and excluded.",
+   tech="explicit enumeration of statement sequences up to a depth against a reference model", ref="§4 C03"),
+ "C04": dict(cat="model_checking",
+   text="All toplevel sequences up to length 5 (thorough 6) over 22 symbols: three distinguishable block definitions, bind with every selector x target, binds of other/missing types, every compile-error form, a bind inside a block, a runtime error. Binding kind and exact blocks, error classes, rejection and the warning count are compared with a trivial reference.",
+   note="Trusted: reference model mc/ref (bind = filter over completed toplevel blocks).",
+   tech="explicit enumeration of statement sequences up to a depth against a reference model", ref="§4 C04"),
+ "C17": dict(cat="model_checking",
+   text="Every token string up to length 4 (thorough 5) over a 29-token vocabulary at toplevel and inside a block, grammar sentences with every single-token delete/insert/replace/transpose, and statement pairs with independent faults: the reference recursive-descent parser accepts iff the real Parse does; rejections give nil results and well-formed diagnostics with the first one at the reference's first offending token; a faulty later statement gets a diagnostic of its own.",
+   note="Trusted: the reference grammar (DESIGN appendix A). Only the first diagnostic's location is predicted; later ones are checked for form and for the no-hide rule.",
+   tech="bounded-exhaustive enumeration of token strings and single-token mutations against a reference parser", ref="§4 C17"),
  "C06": dict(cat="exploration",
    text="Bounded-exhaustive input enumeration with an invariant oracle on the real code: every byte string up to length 4 (thorough 5) over one representative per lexer character class in three contexts, every token string up to length 3 (thorough 4) over a 47-token vocabulary incl. malformed literals, every single-token and single-byte deviation of ~1.9k corpus programs, and scaled programs at each implementation limit; in-memory and file APIs. Worker processes make a panic in a library goroutine attributable to one input.",
    note="Assumes: the character-class representatives cover the lexer's case analysis; hang = no return within 60 s; inputs whose result needs >2^20 bytes of repeated string are excluded by the property (decided by the reference model).",
